@@ -191,3 +191,14 @@ PROPS['C06']['quick'] = [('life:general', 5000), ('life:enum', 60, {'SIM_ENUM': 
 PROPS['C06']['thorough'] = [('life:general', 250000), ('life:enum', 4000, {'SIM_ENUM': '1'})]
 PROPS['C06']['rule'] += ('; plus, per sampled history (life:enum), a fault-free reference execution and one re-execution per store call position of the whole history (CreateFile, Write, Close, Abort, '
                          'Update, TombstoneFile, ...) with an injected error there (short-write / late-error variants on Write and Close): exhaustive over single-fault positions per history')
+
+# Quick-tier sizes tuned to roughly 30-60 s of simulation per check on 16 cores (plus ~25 s build).
+PROPS['C09']['quick'] = [('life:backpressure', 6000)]
+PROPS['C10']['quick'] = [('life:timed', 9000)]
+PROPS['C11']['quick'] = [('merge:content', 3000)]
+PROPS['C12']['quick'] = [('merge:content', 3000)]
+PROPS['C13']['quick'] = [('merge:faults', 160)]
+PROPS['C14']['quick'] = [('merge:concurrent', 3000), ('fs:conc', 1500)]
+PROPS['C15']['quick'] = [('fs:crash', 1000)]
+PROPS['C16']['quick'] = [('fs:spec', 8000)]
+PROPS['C19']['quick'] = [('corrupt:general', 8000)]
